@@ -618,10 +618,11 @@ def check_cycle(job):
     def judge(res, where, entry):
         if isinstance(res, codec.Raised) and res.isa('E2PyclParserException'):
             return
+        kform = 'special' if form.startswith('special_') else form      # hand-made cycles share one key, the smallest one is kept
         if isinstance(res, codec.Raised):
-            key, obs = f'C03.cycle.wrong_exception.{form}.{res.cls}', repr(res)
+            key, obs = f'C03.cycle.wrong_exception.{kform}.{res.cls}', repr(res)
         else:
-            key, obs = f'C03.cycle.accepted.{form}', 'a translation'
+            key, obs = f'C03.cycle.accepted.{kform}', 'a translation'
         fails.append({'key': key, 'what': f'[cycle {form} #{job.get("id")}] {text}: {where} -> {obs}, expected E2PyclParserException',
                       'size': size, 'replay': {'kind': 'cycle', 'key': key, 'job': job}})
 
